@@ -1080,3 +1080,43 @@ fn c01_o1_completion_carries_stamp() {
     std::mem::forget(done);
     std::mem::forget(local);
 }
+
+// ---- cost probes (prop=NONE; not part of any claim) ----
+
+// @verif prop=NONE obl=X tier=thorough bounds="probe: push_query + active_query"
+#[kani::proof]
+#[kani::unwind(5)]
+#[kani::stub(real_catch_unwind, stub_catch_unwind)]
+fn x_zl_push_only() {
+    let local = ZalsaLocal::new();
+    let guard = local.push_query(key(3, 0, 0));
+    assert!(local.active_query().is_some());
+    std::mem::forget(guard);
+    std::mem::forget(local);
+}
+
+// @verif prop=NONE obl=X tier=thorough bounds="probe: push_query + one untracked read + active_query"
+#[kani::proof]
+#[kani::unwind(5)]
+#[kani::stub(real_catch_unwind, stub_catch_unwind)]
+fn x_zl_push_read() {
+    let local = ZalsaLocal::new();
+    let guard = local.push_query(key(3, 0, 0));
+    local.report_untracked_read(Revision::from(kani::any::<u8>() as usize + 1));
+    assert!(local.active_query().is_some());
+    std::mem::forget(guard);
+    std::mem::forget(local);
+}
+
+// @verif prop=NONE obl=X tier=thorough bounds="probe: push_query + pop"
+#[kani::proof]
+#[kani::unwind(5)]
+#[kani::stub(real_catch_unwind, stub_catch_unwind)]
+fn x_zl_push_pop() {
+    let local = ZalsaLocal::new();
+    let guard = local.push_query(key(3, 0, 0));
+    let done = guard.pop(IterationStamp::default());
+    assert!(done.revisions.durability == Durability::NEVER_CHANGE);
+    std::mem::forget(done);
+    std::mem::forget(local);
+}
